@@ -723,7 +723,7 @@ func (g *genState) field(depth int) (zapcore.Field, SX) {
 			g.esc = true
 		}
 	}
-	t := r.Intn(22)
+	t := r.Intn(23)
 	if depth <= 0 && t >= 15 && t <= 17 {
 		t = r.Intn(15)
 	}
@@ -819,6 +819,29 @@ func (g *genState) field(depth int) (zapcore.Field, SX) {
 		g.nested = true
 		m, x := g.objm(depth)
 		return zap.Inline(m), L(I(16), x)
+	case 22:
+		// zap.Stringers: zap's own array wrapper around String(); a nil pointer element is "<nil>", a
+		// panicking element ends the array and is reported as the field's error (script: an element that
+		// writes nothing and fails, in a stop-on-error array)
+		g.nested = true
+		n := r.Intn(4)
+		var vals []fmt.Stringer
+		var xs []SX
+		for i := 0; i < n; i++ {
+			sv, sx := genStringer(r)
+			vals = append(vals, sv)
+			rs := Render(sx)
+			switch {
+			case strings.HasPrefix(rs, "(0"):
+				xs = append(xs, L(I(4), B([]byte(sv.(scriptStringer).s))))
+			case strings.HasPrefix(rs, "(2"):
+				xs = append(xs, L(I(4), Str("<nil>")))
+			default:
+				g.fault = true
+				xs = append(xs, L(I(9), L(I(2), Str("PANIC="+sv.(scriptStringer).s))))
+			}
+		}
+		return zap.Stringers(k, vals), L(I(17), B(key), L(L(xs...), L(), Bool(true)))
 	default:
 		g.nested = true
 		m, x := g.arrm(depth)
